@@ -122,7 +122,9 @@ def sibling_replacements(fmt, text):
     out = []
     for i in range(1, len(toks)):
         p_, t = toks[i - 1], toks[i]
-        if t in punct or p_ in punct and fmt != "verilog" or t.startswith('"'):
+        if t.startswith('"') and i >= 2 and toks[i - 2].lower() == "rename":
+            p_ = '"original name"'          # (rename id "name"): the name string is replaced by an earlier element's name string
+        elif t in punct or p_ in punct and fmt != "verilog":
             continue
         if t in DELIMITERS[fmt] or p_ == t:
             continue
@@ -211,9 +213,33 @@ def edif_dangling(text):
     # an unsupported form of a supported construct: (instanceRef (member X k)) - arrays of instances are not read
     for i, c in irefs[:40]:
         out.append(("unsupported:instanceref-member", i + 1, join_edif(toks[:i + 1] + ["(", "member", toks[i + 1], "0", ")"] + toks[i + 2:])))
+    # which cell each instance instantiates (by cell identifier; the first declaration of that identifier is good enough here)
+    target = {}
+    for c2, lst in insts.items():
+        for p_, n_ in lst:
+            for k_ in range(p_, min(p_ + 14, len(toks) - 1)):
+                if toks[k_].lower() == "cellref":
+                    target[(c2, n_)] = toks[k_ + 1].lower()
+                    break
+    by_name = {}
+    for c2 in insts:
+        by_name.setdefault(c2[0].lower(), c2)
+
+    def below(c, seen):
+        """instances declared in the cells that c's instances instantiate, recursively (what a recursive lookup would find)"""
+        out_ = []
+        for p_, n_ in insts.get(c, []):
+            c3 = by_name.get(target.get((c, n_), ""))
+            if c3 is not None and c3 not in seen:
+                seen.add(c3)
+                out_ += [(c3, n2) for _, n2 in insts.get(c3, [])] + below(c3, seen)
+        return out_
     for i, c in irefs:
         own = set(n_.lower() for _, n_ in insts.get(c, []))
-        near = sorted((abs(p_ - i), n_) for c2, lst in insts.items() if c2 != c for p_, n_ in lst if n_.lower() not in own)
+        # first those that instantiate the same cell as the instance referred to now (the port named by the portRef exists there)
+        orig_t = next((target.get((c, n_)) for _, n_ in insts.get(c, []) if n_.lower() == toks[i + 1].lower()), None)
+        deep_ = sorted(((-2 if target.get((c3, n_)) == orig_t else -1), n_) for c3, n_ in below(c, {c}) if n_.lower() not in own)
+        near = deep_ + sorted((abs(p_ - i), n_) for c2, lst in insts.items() if c2 != c for p_, n_ in lst if n_.lower() not in own)
         seen_ = set()
         for _, n_ in near:
             if n_.lower() in seen_:
